@@ -285,7 +285,12 @@ func (ev *dsEval) call(p *dsPath, x *ast.CallExpr) *dsVal {
 	}
 	switch {
 	case nm == "trans.Desugar" && len(x.Args) == 1:
-		return &dsVal{term: "D(" + ev.eval(p, x.Args[0]).String() + ")"}
+		a := ev.eval(p, x.Args[0]).String()
+		if strings.HasPrefix(a, "Var(") {
+			// Desugar of a freshly built identifier node is that node (the IdentExpr denotation, which this rule checks, is `e`)
+			return &dsVal{term: a}
+		}
+		return &dsVal{term: "D(" + a + ")"}
 	case nm == "builtin.make":
 		return &dsVal{data: &dsData{fixed: map[int]string{}, made: true}}
 	case nm == "builtin.len", nm == "builtin.cap":
@@ -638,16 +643,18 @@ func (ev *dsEval) position(p *dsPath, e ast.Expr) (int, bool, string) {
 			return n, false, ""
 		}
 	}
+	base := 0
 	loopVar := func(e ast.Expr) (string, bool) {
 		if id, ok := unparen(e).(*ast.Ident); ok {
 			if v, ok := p.env[c.objOf(id)]; ok && strings.HasPrefix(v.term, "IDX(") {
+				base = v.off
 				return strings.TrimSuffix(strings.TrimPrefix(v.term, "IDX("), ")"), true
 			}
 		}
 		return "", false
 	}
 	if o, ok := loopVar(e); ok {
-		return 0, true, o
+		return base, true, o
 	}
 	if be, ok := e.(*ast.BinaryExpr); ok && be.Op == token.ADD {
 		for _, pr := range [][2]ast.Expr{{be.X, be.Y}, {be.Y, be.X}} {
@@ -655,6 +662,9 @@ func (ev *dsEval) position(p *dsPath, e ast.Expr) (int, bool, string) {
 				if k := c.constOf(pr[1]); k != nil {
 					n := -1
 					fmt.Sscanf(k.ExactString(), "%d", &n)
+					if n >= 0 {
+						n += base
+					}
 					return n, true, o
 				}
 			}
@@ -663,32 +673,84 @@ func (ev *dsEval) position(p *dsPath, e ast.Expr) (int, bool, string) {
 	return -1, false, ""
 }
 
-// loop executes a loop body once with symbolic index / element; a loop over a built sequence of single elements is unrolled.
+// loop executes a loop body once with symbolic index / element; a loop over a built sequence is unrolled over its single
+// elements, and run once symbolically for every spliced segment (`append(lit, xs...)`): there the index is the segment's
+// offset plus the position in xs and the element is the segment's template.
 func (ev *dsEval) loop(p *dsPath, key, value, over ast.Expr, body *ast.BlockStmt, kind string) []*dsPath {
 	c := ev.c
 	src0 := ev.eval(p, over)
+	bindConst := func(q *dsPath, i int, elem string) {
+		if key != nil {
+			if id, ok := key.(*ast.Ident); ok && id.Name != "_" {
+				q.env[c.objOf(id)] = &dsVal{term: fmt.Sprintf("const:%d", i)}
+			}
+		}
+		if value != nil {
+			if id, ok := value.(*ast.Ident); ok && id.Name != "_" {
+				q.env[c.objOf(id)] = &dsVal{term: elem}
+			}
+		}
+	}
 	if src0.data != nil {
-		// built sequence (variadic operands, literal): unroll over its single elements
+		// built sequence (variadic operands, literal, literal + spliced source): unroll over its single elements
 		d := src0.data
-		if len(d.maps) > 0 || len(d.app) > 0 || src0.off != 0 {
+		if len(d.maps) > 0 || src0.off != 0 {
 			p.why = "?loop over a sequence that is not a plain literal"
 			return []*dsPath{p}
 		}
-		paths := []*dsPath{p}
 		for i := 0; i < len(d.fixed); i++ {
+			if _, ok := d.fixed[i]; !ok {
+				p.why = "?loop over a sparse sequence"
+				return []*dsPath{p}
+			}
+		}
+		fixed := make([]string, len(d.fixed))
+		for i := range fixed {
+			fixed[i] = d.fixed[i]
+		}
+		items := append([]string{}, d.app...)
+		paths := []*dsPath{p}
+		n := 0
+		for _, el := range fixed {
 			for _, q := range paths {
-				if key != nil {
-					if id, ok := key.(*ast.Ident); ok && id.Name != "_" {
-						q.env[c.objOf(id)] = &dsVal{term: fmt.Sprintf("const:%d", i)}
-					}
-				}
-				if value != nil {
-					if id, ok := value.(*ast.Ident); ok && id.Name != "_" {
-						q.env[c.objOf(id)] = &dsVal{term: d.fixed[i]}
-					}
-				}
+				bindConst(q, n, el)
 			}
 			paths = ev.exec(paths, body.List, kind)
+			n++
+		}
+		for _, item := range items {
+			if strings.HasPrefix(item, "*") {
+				k := strings.LastIndex(item, "<-")
+				if k < 0 || n < 0 {
+					for _, q := range paths {
+						q.why = "?loop over a sequence with an element after a spliced segment"
+					}
+					return paths
+				}
+				tmpl, seg := item[1:k], item[k+2:]
+				var next []*dsPath
+				for _, q := range paths {
+					if q.done || q.why != "" {
+						next = append(next, q)
+						continue
+					}
+					next = append(next, ev.symbolicIter(q, key, value, body, kind, seg, n, tmpl)...)
+				}
+				paths = next
+				n = -1
+				continue
+			}
+			if n < 0 {
+				for _, q := range paths {
+					q.why = "?loop over a sequence with an element after a spliced segment"
+				}
+				return paths
+			}
+			for _, q := range paths {
+				bindConst(q, n, item)
+			}
+			paths = ev.exec(paths, body.List, kind)
+			n++
 		}
 		return paths
 	}
@@ -696,14 +758,21 @@ func (ev *dsEval) loop(p *dsPath, key, value, over ast.Expr, body *ast.BlockStmt
 		p.why = "?loop source"
 		return []*dsPath{p}
 	}
+	return ev.symbolicIter(p, key, value, body, kind, src0.term, 0, "#")
+}
+
+// symbolicIter runs the body once for "the i-th element of seg": the index is base+i, the element is tmpl (in which # is
+// seg's element). Elements appended inside become map segments over seg.
+func (ev *dsEval) symbolicIter(p *dsPath, key, value ast.Expr, body *ast.BlockStmt, kind, seg string, base int, tmpl string) []*dsPath {
+	c := ev.c
 	if key != nil {
 		if id, ok := key.(*ast.Ident); ok && id.Name != "_" {
-			p.env[c.objOf(id)] = &dsVal{term: "IDX(" + src0.term + ")"}
+			p.env[c.objOf(id)] = &dsVal{term: "IDX(" + seg + ")", off: base}
 		}
 	}
 	if value != nil {
 		if id, ok := value.(*ast.Ident); ok && id.Name != "_" {
-			p.env[c.objOf(id)] = &dsVal{term: "#"}
+			p.env[c.objOf(id)] = &dsVal{term: tmpl}
 		}
 	}
 	// appends inside the loop become map segments: mark by executing and rewriting what was appended
@@ -729,7 +798,7 @@ func (ev *dsEval) loop(p *dsPath, key, value, over ast.Expr, body *ast.BlockStmt
 			}
 			for i := n; i < len(v.data.app); i++ {
 				if !strings.HasPrefix(v.data.app[i], "*") {
-					v.data.app[i] = "*" + v.data.app[i] + "<-" + src0.term
+					v.data.app[i] = "*" + v.data.app[i] + "<-" + seg
 				}
 			}
 			before[v.data] = len(v.data.app)
